@@ -1,4 +1,5 @@
 import LibInj.Proofs.H5Good
+import LibInj.Proofs.H5Term
 set_option linter.unusedSimpArgs false
 /-! # C17 — HTML tokens stay inside the input, in order; constructs end at their first terminator
 
@@ -8,9 +9,13 @@ Proved for every input and start context: the tokenizer stops, every token lies 
 `|s|+1` of the property needs an amortised count and is checked by the oracle). First-terminator
 refinements proved here: `<! .. >`, `<? .. >`, `</! .. >` (bogus comment) and doctype end at the
 first `>` and resume right after it (`bogus_comment_first_gt`, `doctype_first_gt`); a quoted
-attribute value ends at the first matching quote (`quoted_value_first_quote`). The loops for `%>`,
-`]]>` and `-->`/`-!>` are proved total and in-bounds (`H5Good`); their first-terminator refinements
-are not yet theorems and are decided by the correspondence and the opener × body oracle. -/
+attribute value ends at the first matching quote (`quoted_value_first_quote`); **`<![CDATA[ .. ]]>`
+ends at the first `]]>`, `<% .. %>` at the first `%>`, `<!-- ..` at the first `-` NUL* (`-`|`!`) `>`**
+(`cdata_first_terminator`, `percent_first_terminator`, `comment_first_terminator`): the token spans
+exactly the bytes from the scan offset to the terminator, the scan resumes right after it, and with no
+terminator the token runs to end of input. So every delimited construct of the property has its
+first-terminator theorem. Not yet theorems: the sharp count `|s|+1` and the non-overlap of
+consecutive tokens (both checked by the oracle). -/
 namespace LibInj.Properties.C17
 open LibInj LibInj.H5
 
@@ -82,5 +87,38 @@ def order_and_count_statement : Prop :=
 
 example : (match tokens [60,33,97,62,98] 0 with | .ok [t1, t2] => t1.off == 2 && t1.len == 1 && t2.off == 4 | _ => false) = true := by
   decide +kernel
+
+/-- **`<![CDATA[ .. ]]>`** ends at the first `]]>` -/
+theorem cdata_first_terminator (h : H) (hp : h.pos ≤ h.s.length) :
+    (∀ i, Term3 h.s 93 93 62 i → h.pos ≤ i → (∀ j, h.pos ≤ j → j < i → ¬ Term3 h.s 93 93 62 j) →
+      stateCData h = foundAt h .dataText i 3) ∧
+    ((∀ i, h.pos ≤ i → ¬ Term3 h.s 93 93 62 i) → stateCData h = ranOut h .dataText) :=
+  LibInj.H5.cdata_first_terminator h hp
+
+/-- **`<% .. %>`** ends at the first `%>` -/
+theorem percent_first_terminator (h : H) (hp : h.pos ≤ h.s.length) :
+    (∀ i, Term2 h.s 37 62 i → h.pos ≤ i → (∀ j, h.pos ≤ j → j < i → ¬ Term2 h.s 37 62 j) →
+      stateBogusComment2 h = foundAt h .tagComment i 2) ∧
+    ((∀ i, h.pos ≤ i → ¬ Term2 h.s 37 62 i) → stateBogusComment2 h = ranOutEnd h .tagComment) :=
+  LibInj.H5.percent_first_terminator h hp
+
+/-- **`<!-- .. -->` / `-!>`**, NULs tolerated after the first dash: ends at the first terminator -/
+theorem comment_first_terminator (h : H) (hp : h.pos ≤ h.s.length) :
+    (∀ i n, ComEnd h.s i n → h.pos ≤ i → (∀ j m, h.pos ≤ j → j < i → ¬ ComEnd h.s j m) →
+      stateComment h = foundAt h .tagComment i (n + 3)) ∧
+    ((∀ i n, h.pos ≤ i → ¬ ComEnd h.s i n) → stateComment h = ranOut h .tagComment) :=
+  LibInj.H5.comment_first_terminator h hp
+
+/-- non-vacuity: `a-\0\0->b` has a terminator at offset 1 with two NULs, none before -/
+example : ComEnd [97, 45, 0, 0, 45, 62, 98] 1 2 := by
+  refine ⟨rfl, fun k hk => ?_, Or.inl rfl, rfl⟩
+  match k, hk with
+  | 0, _ => rfl
+  | 1, _ => rfl
+
+/-- non-vacuity, kernel-evaluated: the comment of `<!--a-\0\0->b` is `a` (offset 4, length 1) -/
+example : (match tokens [60, 33, 45, 45, 97, 45, 0, 0, 45, 62, 98] 0 with
+    | .ok (t :: _) => t.off == 4 && t.len == 1
+    | _ => false) = true := by decide +kernel
 
 end LibInj.Properties.C17
